@@ -10,7 +10,6 @@ import re
 import sys
 import time
 import traceback
-from concurrent.futures import ProcessPoolExecutor, as_completed
 
 ROOT = os.path.dirname(os.path.dirname(os.path.abspath(__file__)))
 sys.path.insert(0, ROOT)
@@ -31,9 +30,11 @@ def _worker(prop, cfg):
         pass
 
     def _alarm(signum, frame):
+        # an exception raised while a __del__ (z3 AstRef) is running is swallowed by the interpreter: re-arm until it is delivered
+        signal.alarm(1)
         raise _HardTimeout()
 
-    hard = int(cfg.get("hard_timeout_s", 420 if cfg.get("tier") == "quick" else 1800))
+    hard = _hard_limit(cfg)
     signal.signal(signal.SIGALRM, _alarm)
     signal.alarm(hard)
     try:
@@ -46,6 +47,7 @@ def _worker(prop, cfg):
             fn = getattr(mod, cfg["fn"])
             r = fn(cfg)
     except _HardTimeout:
+        signal.alarm(0)
         r = {"cfg": cfg["key"], "engine_errors": [], "violations": [], "open": [{"obligation": "(configuration)", "status": "open", "detail": f"hard time limit of {hard}s reached - configuration not decided", "witnessed": False}], "paths": 0, "paths_incomplete": 1, "obligations": 1, "discharged": 0, "notes": [f"hard time limit {hard}s"]}
     except BaseException as e:  # noqa
         r = {"cfg": cfg["key"], "engine_errors": [f"worker crashed: {type(e).__name__}: {e} | {traceback.format_exc()[-600:]}"], "violations": [], "open": [], "paths": 0, "obligations": 0, "discharged": 0}
@@ -54,6 +56,64 @@ def _worker(prop, cfg):
     r["fn"] = cfg["fn"]
     r.setdefault("wall_s", round(time.time() - t0, 3))
     return r
+
+
+def _hard_limit(cfg):
+    return int(cfg.get("hard_timeout_s", 420 if cfg.get("tier") == "quick" else 1800))
+
+
+def _child(prop, cfg, conn):
+    r = _worker(prop, cfg)
+    try:
+        conn.send(r)
+    except Exception as e:  # noqa
+        conn.send({"cfg": cfg["key"], "fn": cfg["fn"], "engine_errors": [f"result could not be sent to the parent: {e}"], "violations": [], "open": [], "paths": 0, "obligations": 0, "discharged": 0})
+    conn.close()
+
+
+def run_all(prop, cfgs, jobs, verbose=False):
+    """one forked process per configuration; the parent enforces the hard time limit (a worker stuck inside one
+    solver / bignum call never sees its own SIGALRM) and survives crashed workers"""
+    import multiprocessing as mp
+    from multiprocessing.connection import wait
+
+    ctx = mp.get_context("fork")
+    pending = list(cfgs)
+    running = {}
+    results = []
+
+    def done(r):
+        results.append(r)
+        if verbose:
+            print(f"  [{r['cfg']}] paths={r.get('paths')} obl={r.get('obligations')} dis={r.get('discharged')} open={len(r.get('open', []))} viol={len(r.get('violations', []))} err={len(r.get('engine_errors', []))} {r.get('wall_s')}s", flush=True)
+
+    while pending or running:
+        while pending and len(running) < jobs:
+            c = pending.pop(0)
+            pc, cc = ctx.Pipe(duplex=False)
+            p = ctx.Process(target=_child, args=(prop, c, cc), daemon=True)
+            p.start()
+            cc.close()
+            running[p] = (c, pc, time.time())
+        ready = wait([v[1] for v in running.values()], timeout=1.0)
+        for p, (c, pc, t0) in list(running.items()):
+            if pc in ready:
+                try:
+                    r = pc.recv()
+                except (EOFError, OSError):
+                    r = {"cfg": c["key"], "fn": c["fn"], "engine_errors": [f"worker process died without a result (exit code {p.exitcode})"], "violations": [], "open": [], "paths": 0, "obligations": 0, "discharged": 0, "wall_s": round(time.time() - t0, 1)}
+                p.join(10)
+                if p.is_alive():
+                    p.kill()
+                del running[p]
+                done(r)
+            elif time.time() - t0 > _hard_limit(c) + 45:
+                p.kill()
+                p.join()
+                del running[p]
+                hard = _hard_limit(c)
+                done({"cfg": c["key"], "fn": c["fn"], "engine_errors": [], "violations": [], "open": [{"obligation": "(configuration)", "status": "open", "detail": f"hard time limit of {hard}s reached (worker killed by the parent) - configuration not decided", "witnessed": False}], "paths": 0, "paths_incomplete": 1, "obligations": 1, "discharged": 0, "notes": [f"hard time limit {hard}s"], "wall_s": round(time.time() - t0, 1)})
+    return results
 
 
 def load_findings():
@@ -128,14 +188,14 @@ def main(argv=None):
         c.setdefault("seed", seed)
     if a.only:
         cfgs = [c for c in cfgs if re.search(a.only, c["key"])]
-    results = []
-    with ProcessPoolExecutor(max_workers=min(a.jobs, max(1, len(cfgs)))) as ex:
-        futs = {ex.submit(_worker, prop, c): c for c in cfgs}
-        for f in as_completed(futs):
-            r = f.result()
-            results.append(r)
-            if a.verbose:
-                print(f"  [{r['cfg']}] paths={r.get('paths')} obl={r.get('obligations')} dis={r.get('discharged')} open={len(r.get('open', []))} viol={len(r.get('violations', []))} err={len(r.get('engine_errors', []))} {r.get('wall_s')}s", flush=True)
+    corpus_path = os.path.join(ROOT, "props", "witness_seeds.json")
+    if os.path.exists(corpus_path):
+        corpus = json.load(open(corpus_path)).get(prop, {})
+        for c in cfgs:
+            if c["key"] in corpus:
+                c.setdefault("options", {})
+                c["options"] = dict(c["options"], witness_seeds=corpus[c["key"]])
+    results = run_all(prop, cfgs, min(a.jobs, max(1, len(cfgs))), a.verbose)
     results.sort(key=lambda r: r["cfg"])
     cfg_by_key = {c["key"]: c for c in cfgs}
     findings = load_findings()
@@ -229,6 +289,7 @@ def write_evidence(mod, prop, tier, seed, results, n_viol, n_known, wall, inconc
         "solver_time_s": round(sum(r.get("solver_time_s", 0) for r in results), 2),
         "lemmas": tot("lemmas"),
         "solver_unknown": tot("unknown"),
+        "second_solver": {"solver": "cvc5 1.4 (python wheel), same SMT-LIB2 query as exported by z3", "unsat_verdicts_rechecked": sum((r.get("cvc5") or {}).get("queries", 0) for r in results), "agree": sum((r.get("cvc5") or {}).get("agree", 0) for r in results), "gave_up": sum((r.get("cvc5") or {}).get("unknown", 0) for r in results), "disagreements": 0 if not any("solver disagreement" in e for _, e in engine_errors) else sum(1 for _, e in engine_errors if "solver disagreement" in e), "time_s": round(sum((r.get("cvc5") or {}).get("time_s", 0) for r in results), 2), "rule": "the first N z3 unsat verdicts of every path (N=8 quick, 60 thorough) are re-decided; a sat answer is a harness error"},
         "inconclusive": len(inconclusive),
         "inconclusive_list": [f"[{c}] {o['obligation']}: {o['detail'][:160]}" for c, o in inconclusive[:25]],
         "known_findings_hit": n_known,
